@@ -58,9 +58,11 @@ structure Instr where
   qubits : List Qubit
   deriving DecidableEq, Repr, Inhabited
 
-/-- `Instruction::get_qubits` (instruction/mod.rs:689-725): only gates, measurements, resets, delays,
-fences, captures, pulses, raw captures (all `body`) and the two calibration definitions report qubits;
-every other variant falls into `_ => vec![]`. -/
+/-- `Instruction::get_qubits` (instruction/mod.rs:689-735): gates, measurements, resets, delays,
+fences, captures, pulses, raw captures, SET-*/SHIFT-*/SWAP-PHASES (since fix a86534e) — all routed to
+`body` — and the two calibration definitions report qubits; every DEFINITION kind other than the
+calibrations (DECLARE, DEFFRAME, DEFWAVEFORM, DEFGATE, DEFCIRCUIT, PRAGMA) falls into `_ => vec![]`.
+Which body instructions report which qubits is taken from the real `get_qubits` (field `qubits`). -/
 def Instr.getQubits (i : Instr) : List Qubit :=
   match i.kind with
   | .body | .cal | .mcal => i.qubits
